@@ -60,6 +60,18 @@ def gen(rng):
 
 
 def cases(rng, tier):
+    for c in _cases(rng, tier):
+        if isinstance(c, dict) and "ops" in c:
+            for op in c["ops"]:
+                if isinstance(op, dict) and op.get("op") == "recreate" and op.get("strategy") == "cubic" and rng.random() < 0.5:
+                    # a user-supplied sampling function instead of the default spline: a polynomial, or one that ignores
+                    # where it is asked and returns a plain number (called point by point it fills the series)
+                    op["strategy"] = "function"
+                    op["supplier"] = rng.choice(["const", "poly"])
+        yield c
+
+
+def _cases(rng, tier):
     for _sc in range(6 if tier != "thorough" else 60):
         yield SC.gen(rng, ['csv_twice', 'readonly_view_base'][_sc % 2])
     n_ = {"quick": 300, "thorough": 5000}.get(tier, 200)
